@@ -153,6 +153,20 @@ def run(ctx: Ctx) -> None:
     formats = [(E, M) for E in range(2, 9) for M in range(0, 24)]
     total = 0
     model_jobs: List[Tuple[int, int, Any, Any]] = []
+    def model_bits(E: int, M: int, bits):
+        """the model's output patterns, requested in chunks answered in parallel (nothing is kept between formats)"""
+        step = 200000
+        reqs = [{"k": "quant", "E": E, "M": M, "mode": "nearest", "bits": bits[i:i + step].tolist()}
+                for i in range(0, len(bits), step)]
+
+        def one(rq):
+            return np.array(driver.ask([rq], timeout=1800)[0]["out"], dtype=np.uint32)
+
+        with ThreadPoolExecutor(max_workers=8) as ex:
+            parts = list(ex.map(one, reqs))
+        return np.concatenate(parts) if parts else np.zeros(0, dtype=np.uint32)
+
+    sample_bits = None
     for (E, M) in formats:
         f = FPFormat(E, M, "nearest")
         c = fmt_consts(E, M)
@@ -181,9 +195,20 @@ def run(ctx: Ctx) -> None:
         total += len(bits)
         ctx.evaluations += len(bits)
         ctx.bump(f"E{E}", len(bits))
-        model_jobs.append((E, M, bits, yb))
+        if sample_bits is None and len(bits) > 5:
+            sample_bits = {"E": E, "M": M, "x_bits": int(bits[5])}
+        # ---- correspondence with the Lean model: identical bit patterns (streamed per format)
+        if ctx.driver_ok:
+            mo = model_bits(E, M, bits)
+            diff = np.nonzero(mo != yb)[0]
+            if len(diff):
+                i = int(diff[0])
+                ctx.disagree("quantise_bits", {"E": E, "M": M, "x_bits": int(bits[i]), "n_differing": int(len(diff))},
+                             int(mo[i]), int(yb[i]), THMS)
+            del mo
+        del x, x0, y, y2, yb, bits
     ctx.distinct_extra += total  # every (format, pattern) pair is distinct by construction (np.unique)
-    ctx.samples = [{"E": 4, "M": 3, "x_bits": int(model_jobs[0][2][5])}] if model_jobs else []
+    ctx.samples = [sample_bits] if sample_bits else []
 
     # ---- tensors of rank 0-3, empty, non-contiguous, four dtypes
     for (E, M) in [(4, 3), (5, 2), (2, 1), (8, 7), (3, 0), (5, 10), (8, 23)] + [rng.choice(formats) for _ in range(6 if quick else 60)]:
@@ -221,28 +246,6 @@ def run(ctx: Ctx) -> None:
                     ref = f.quantise(x0.to(torch.float32).contiguous()).to(dt)
                     if not torch.equal(y, ref):
                         ctx.violation("C13:dtype-value", "result differs from quantising the float32 copy", {**key, "layout": vname})
-
-    # ---- correspondence with the Lean model: identical bit patterns
-    if ctx.driver_ok:
-        def ask(job):
-            E, M, bits, yb = job
-            # the driver handles ~10^5 patterns per request comfortably
-            out = []
-            step = 200000
-            reqs = [{"k": "quant", "E": E, "M": M, "mode": "nearest", "bits": bits[i:i + step].tolist()}
-                    for i in range(0, len(bits), step)]
-            for r in driver.ask(reqs, timeout=1800):
-                out += r["out"]
-            return np.array(out, dtype=np.uint32)
-
-        with ThreadPoolExecutor(max_workers=8) as ex:
-            for job, mo in zip(model_jobs, ex.map(ask, model_jobs)):
-                E, M, bits, yb = job
-                diff = np.nonzero(mo != yb)[0]
-                if len(diff):
-                    i = int(diff[0])
-                    ctx.disagree("quantise_bits", {"E": E, "M": M, "x_bits": int(bits[i]), "n_differing": int(len(diff))},
-                                 int(mo[i]), int(yb[i]), THMS)
 
     # ---- thorough: every float32 bit pattern for the FP8 formats, by block checksums on all cores
     if not quick and ctx.driver_ok:
